@@ -2,7 +2,7 @@
 no-call-under-lock, must-pass-through wrappers."""
 from .. import access, callgraph
 from ..cfg import search, witness_str, elem_dominates
-from ..expr import show, walk, last, field_of, strip_wrappers, access_path, short
+from ..expr import show, walk, last, field_of, strip_wrappers, access_path, short, const_value
 from ..facts import AnalysisBroken
 from ..locks import mutex_id, LOCK_TYPES
 
@@ -332,3 +332,20 @@ def cmp_parts(n):
     if n.get("k") == "opcall" and n.get("op") in ("==", "!=", "<", ">", "<=", ">=") and len(n["args"]) == 2:
         return n["op"], n["args"][0], n["args"][1]
     return None
+
+
+def field_default(fb, record_suffix, field):
+    """constant value of the in-class initialiser of record.field (None if absent / not constant)"""
+    for recs in fb.records.values():
+        for rec in recs:
+            if not rec["name"].endswith(record_suffix):
+                continue
+            for fld in rec["fields"]:
+                if fld["n"] == field:
+                    i = fld.get("init")
+                    while i is not None and i.get("k") == "ilist" and len(i.get("vals", [])) == 1:
+                        i = i["vals"][0]
+                    while i is not None and i.get("k") == "ctor" and len(i.get("args", [])) == 1:
+                        i = i["args"][0]
+                    return const_value(i) if i is not None else None
+    raise AnalysisBroken("record …%s has no field %s" % (record_suffix, field))
